@@ -278,7 +278,7 @@ def run(tier, seed, only_cases=None):
     workers = 4 if tier == "quick" else 16
 
     # ---- (1) model checking -------------------------------------------------------------------
-    cfgs = [("MCLogSafety_q.cfg", 300), ("MCLogSafety_n3obj.cfg", 600)] if tier == "quick" else \
+    cfgs = [("MCLogSafety_q.cfg", 300), ("MCLogSafety_n3obj.cfg", 600), ("MCLogSafety_mapsq.cfg", 300)] if tier == "quick" else \
         [("MCLogSafety_q.cfg", 300), ("MCLogSafety_n3obj.cfg", 600), ("MCLogSafety_free.cfg", 900),
          ("MCLogSafety_maps.cfg", 1800), ("MCLogSafety_n3.cfg", 3000)]
     if tier == "quick":
